@@ -65,6 +65,22 @@ def check(res, tr, c09=False):
             res.violate("fired-twice/AlreadyCalledError-unhandled", "a Deferred was fired a second time: %s" % u[2])
         else:
             res.ev("diag_unhandled_failure_" + u[0])
+    # a request carries each message once, under the topic it was sent to and under one partition only
+    for r in reqs:
+        seen = {}
+        for (topic, part), recs in r["payloads"].items():
+            for (k, v) in recs:
+                s_ = prod.send_of(k, v)
+                if s_ is None or s_ not in tr.sends:
+                    continue
+                if tr.sends[s_]["topic"] != topic:
+                    res.violate("content/message-written-under-another-topic", "a produce request carries a message "
+                                "of a send to %r in its payload for topic %r" % (tr.sends[s_]["topic"], topic), send=s_)
+                prev = seen.setdefault((s_, k, v), (topic, part))
+                if prev != (topic, part):
+                    res.violate("content/message-in-several-partitions-of-one-request", "one produce request carries "
+                                "the same message of send %r under %r and under %r" % (s_, prev, (topic, part)))
+        res.ob("request_carries_each_message_once")
     if cfg["codec"]:
         res.hit("gzip_scenarios")
     if any(r["version"] >= 2 for r in reqs):
